@@ -1,14 +1,19 @@
 #!/bin/bash
-# usage: confirm_seed.sh <worktree> <demo file in seed_out> ; confirms: with patch demo FAILS + lib tests pass, without patch demo PASSES
-WT=$1; DEMO=$2; NAME=$(basename $DEMO .rs)
+# usage: confirm_seed.sh <worktree> <seed dir inside the worktree, e.g. seed_out_1>
+# confirms: with the patch the demo FAILS and the existing lib tests pass; without the patch the demo PASSES
+WT=$1; SD=${2:-seed_out}
 cd $WT || exit 2
-export CARGO_TARGET_DIR=$WT/target
-git checkout -q -- . ; git apply seed_out/patch.diff || { echo "patch does not apply"; exit 2; }
-cp seed_out/$DEMO programs/marginfi/tests/$NAME.rs
-cargo test -p marginfi --test $NAME --offline > seed_out/confirm_with.log 2>&1; W=$?
-cargo test -p marginfi --lib --offline > seed_out/confirm_lib.log 2>&1; L=$?
-git apply -R seed_out/patch.diff
-cargo test -p marginfi --test $NAME --offline > seed_out/confirm_without.log 2>&1; WO=$?
+DEMO=$(ls $SD/*.rs | head -1); NAME=$(basename $DEMO .rs)
+export CARGO_TARGET_DIR=$WT/target CARGO_NET_OFFLINE=true
+git checkout -q -- . ; git apply $SD/patch.diff || { echo "SEED $WT/$SD: patch does not apply"; exit 2; }
+cp $DEMO programs/marginfi/tests/$NAME.rs
+cargo test -p marginfi --test $NAME --offline > $SD/confirm_with.log 2>&1; W=$?
+cargo test -p marginfi --lib --offline > $SD/confirm_lib.log 2>&1; L=$?
+X=0
+if grep -q '^diff --git a/type-crate' $SD/patch.diff; then cargo test -p marginfi-type-crate --offline > $SD/confirm_tc.log 2>&1; X=$?; fi
+for m in kamino solend drift; do if grep -q "^diff --git a/programs/$m-mocks" $SD/patch.diff; then cargo test -p $m-mocks --offline > $SD/confirm_$m.log 2>&1; X=$((X+$?)); fi; done
+git apply -R $SD/patch.diff
+cargo test -p marginfi --test $NAME --offline > $SD/confirm_without.log 2>&1; WO=$?
 rm -f programs/marginfi/tests/$NAME.rs
-git apply seed_out/patch.diff
-echo "SEED $WT: demo_with_patch_exit=$W (want !=0) lib_tests_exit=$L (want 0) demo_without_patch_exit=$WO (want 0) lib: $(grep 'test result' seed_out/confirm_lib.log | head -1)"
+git checkout -q -- .
+echo "SEED $WT/$SD: demo_with_patch_exit=$W (want !=0) lib_tests_exit=$L (want 0) other_crate_tests_exit=$X (want 0) demo_without_patch_exit=$WO (want 0) lib: $(grep 'test result' $SD/confirm_lib.log | head -1) with: $(grep 'test result' $SD/confirm_with.log | head -1)"
